@@ -233,7 +233,7 @@ func concurrentScenarios(thorough bool) []vrt.Scenario {
 		w := w
 		l = append(l, vrt.Scenario{Name: "failing-upcaster-vs-" + w, New: func() vrt.Instance { return &finst{writer: w} }})
 	}
-	return l
+	return append(l, twoChainScenarios()...)
 }
 
 func runConcurrent(c *h.Check) {
